@@ -352,9 +352,9 @@ fn main() {
         let cc = c.clone();
         let (tx, rx) = std::sync::mpsc::channel();
         let h = std::thread::spawn(move || { let r = std::panic::catch_unwind(std::panic::AssertUnwindSafe(|| run_case(which, &cc, seed.wrapping_add(k as u64)))); let _ = tx.send(()); r });
-        let r = match rx.recv_timeout(std::time::Duration::from_secs(60)) {
-            Ok(()) => match h.join().unwrap() { Ok(r) => r, Err(_) => if which == "C04" || which == "all" || which == "C20" || which == "C15" { Err(format!("{}: panic while driving {}", if which == "all" { "C04" } else { which }, c.desc)) } else { Ok(()) } },
-            Err(_) => Err(format!("C04: driver did not finish within 60 s on {}", c.desc)),
+        let r = match recv_unless_idle(&rx, 60, 1800) {
+            Some(()) => match h.join().unwrap() { Ok(r) => r, Err(_) => if which == "C04" || which == "all" || which == "C20" || which == "C15" { Err(format!("{}: panic while driving {}", if which == "all" { "C04" } else { which }, c.desc)) } else { Ok(()) } },
+            None => Err(format!("C04: driver did not finish on {} (idle for 60 s, or busy for 30 min)", c.desc)),
         };
         if let Err(e) = r { println!("VIOLATION {e}"); std::process::exit(1); }
     }
